@@ -19,10 +19,22 @@ import (
 var c17Jobs = []string{"ja", "jb", "jc"}
 
 func c17Config(jobs []string, noClient ...string) string {
+	return c17ConfigStrict(jobs, nil, noClient...)
+}
+
+// strict: jobs whose relabel rule also drops targets labelled dropme="maybe" (a reload that changes only the
+// content of a kept job)
+func c17ConfigStrict(jobs []string, strict []string, noClient ...string) string {
 	var sb strings.Builder
 	sb.WriteString("global:\n  scrape_interval: 15s\nscrape_configs:\n")
 	for _, j := range jobs {
-		fmt.Fprintf(&sb, "- job_name: %s\n  relabel_configs:\n  - source_labels: [dropme]\n    regex: \"yes\"\n    action: drop\n", j)
+		rx := "yes"
+		for _, s := range strict {
+			if s == j {
+				rx = "yes|maybe"
+			}
+		}
+		fmt.Fprintf(&sb, "- job_name: %s\n  relabel_configs:\n  - source_labels: [dropme]\n    regex: \"%s\"\n    action: drop\n", j, rx)
 		for _, nc := range noClient {
 			if nc == j {
 				// the job stays configured, but its HTTP client cannot be built at this reload (CA file unreadable,
@@ -39,7 +51,16 @@ func c17Config(jobs []string, noClient ...string) string {
 
 // target address encodes (job, version, k): a read identifies the update it observed.
 func c17Group(job string, version, nActive, nDrop int) *targetgroup.Group {
+	return c17GroupMaybe(job, version, nActive, nDrop, 0)
+}
+
+func nMaybe(size int) int { return (size + 1) % 3 }
+
+func c17GroupMaybe(job string, version, nActive, nDrop, nMaybe int) *targetgroup.Group {
 	var ts []map[string]string
+	for k := 0; k < nMaybe; k++ {
+		ts = append(ts, map[string]string{"__address__": fmt.Sprintf("%s-v%d-m%d.example:9100", job, version, k), "tid": fmt.Sprintf("%s/%d/m%d", job, version, k), "dropme": "maybe"})
+	}
 	for k := 0; k < nActive; k++ {
 		ts = append(ts, map[string]string{"__address__": fmt.Sprintf("%s-v%d-t%d.example:9100", job, version, k), "tid": fmt.Sprintf("%s/%d/%d", job, version, k)})
 	}
@@ -101,6 +122,8 @@ type c17Step struct {
 	Version int            `json:"version,omitempty"`
 	Sizes   map[string]int `json:"sizes,omitempty"`    // per job: number of active targets (dropped = size % 3)
 	NoCli   []string       `json:"noClient,omitempty"` // reload: configured jobs whose HTTP client cannot be built this time
+	Strict  []string       `json:"strict,omitempty"`   // reload: jobs whose rule also drops the dropme="maybe" targets
+	Plain   bool           `json:"plain,omitempty"`    // update without dropme="maybe" targets (the concurrent monitor counts targets per version)
 }
 
 func c17GenSteps(r *core.Rng, n int) []c17Step {
@@ -121,10 +144,21 @@ func c17GenSteps(r *core.Rng, n int) []c17Step {
 			if len(nj) == 0 {
 				nj = []string{c17Jobs[r.Intn(3)]}
 			}
+			prevCfg := cfg
 			cfg = nj
 			st := c17Step{Kind: "reload", Jobs: nj}
 			if r.Intn(3) == 0 {
 				st.NoCli = []string{nj[r.Intn(len(nj))]}
+			}
+			if r.Intn(3) == 0 {
+				// a reload that only changes the content of kept jobs: same job names as before
+				st.Jobs, nj = append([]string{}, prevCfg...), append([]string{}, prevCfg...)
+				cfg = nj
+			}
+			for _, j := range nj {
+				if r.Intn(2) == 0 {
+					st.Strict = append(st.Strict, j)
+				}
 			}
 			steps = append(steps, st)
 			continue
@@ -159,6 +193,7 @@ func c17GenSteps(r *core.Rng, n int) []c17Step {
 // monitor 1: sequential reference model
 
 type c17Model struct {
+	strict   map[string]bool
 	cfg      map[string]bool
 	active   map[string][]string
 	drop     map[string][]string
@@ -184,6 +219,10 @@ func (m *c17Model) apply(st c17Step) {
 			}
 		}
 		m.cfg = nc
+		m.strict = map[string]bool{}
+		for _, j := range st.Strict {
+			m.strict[j] = true
+		}
 	case "update":
 		ne := map[string]bool{}
 		for _, j := range st.Jobs {
@@ -191,6 +230,17 @@ func (m *c17Model) apply(st c17Step) {
 				continue
 			}
 			a, d := expectTids(j, st.Version, st.Sizes[j], st.Sizes[j]%3)
+			for k := 0; k < nMaybe(st.Sizes[j]); k++ {
+				// translated under the configuration of the latest reload
+				tid := fmt.Sprintf("%s/%d/m%d", j, st.Version, k)
+				if m.strict[j] {
+					d = append(d, tid)
+				} else {
+					a = append(a, tid)
+				}
+			}
+			sort.Strings(a)
+			sort.Strings(d)
 			m.active[j], m.drop[j] = a, d
 			for _, t := range a {
 				ne[t] = true
@@ -215,7 +265,11 @@ func (m *c17Model) view(drop bool) tableView {
 func stepGroups(st c17Step) map[string][]*targetgroup.Group {
 	in := map[string][]*targetgroup.Group{}
 	for _, j := range st.Jobs {
-		in[j] = []*targetgroup.Group{c17Group(j, st.Version, st.Sizes[j], st.Sizes[j]%3)}
+		nm := nMaybe(st.Sizes[j])
+		if st.Plain {
+			nm = 0
+		}
+		in[j] = []*targetgroup.Group{c17GroupMaybe(j, st.Version, st.Sizes[j], st.Sizes[j]%3, nm)}
 	}
 	return in
 }
@@ -223,7 +277,7 @@ func stepGroups(st c17Step) map[string][]*targetgroup.Group {
 func runStep(p *pipeline, st c17Step) error {
 	switch st.Kind {
 	case "reload":
-		return p.cm.ReloadFromRaw([]byte(c17Config(st.Jobs, st.NoCli...)))
+		return p.cm.ReloadFromRaw([]byte(c17ConfigStrict(st.Jobs, st.Strict, st.NoCli...)))
 	default:
 		return p.update(stepGroups(st))
 	}
@@ -452,6 +506,9 @@ func versionsSeen(tids map[string][]string, sizes map[int]map[string]int, droppe
 func runC17Linearizable(w *core.WorkerCtx, idx int, res *core.CaseResult) {
 	r := core.NewRng(w.Seed, 0xC17B, uint64(idx))
 	steps := c17GenSteps(r, 10+r.Intn(6))
+	for i := range steps {
+		steps[i].Plain, steps[i].Strict = true, nil
+	}
 	// every update gives every contained job at least one active and one dropped target, so that a read identifies the version
 	sizes := map[int]map[string]int{}
 	for i := range steps {
@@ -699,6 +756,7 @@ func init() {
 			"(1) even cases: a seed-determined sequence of 12-41 steps (full updates, partial first rounds, updates still carrying a just-removed job, reloads that add/remove/keep jobs over {ja,jb,jc}, targets that relabeling drops) with ActiveTargets / DropTargets / ActiveTargetsByHash / Explore.Get compared to a reference model after every step and all earlier snapshots re-checked for mutation; " +
 			"a third of the update runs in (1) are sent back to back (2-4 updates without waiting for the explorer) and judged after the last; " +
 			"(2) odd cases: the same kind of steps from one writer with 4-8 concurrent reader goroutines; every update carries a unique version in its target ids, reads and writes are recorded with call/return times from one monotonic clock and the history (<= 60 operations) is checked with porcupine against a sequential map job->version in which a reload removes exactly the deleted jobs; torn reads (two versions of one job) are reported directly; " +
+			"in (1) every reload draws per job whether its relabel rule also drops targets labelled dropme=maybe, one reload in three keeps the job names of the previous configuration (content-only reload), every update carries such targets, and the model translates each update under the latest reload;  " +
 			"(3) a -race pass over linearizability cases with attribution of reports to reader/writer pairs of the tables; (4) 16 start-up cases: WaitInit runs while the first rounds of three jobs arrive at scripted times (one job may stay silent): it must not return before every configured job had its first round (or before its context ends) and must return within bounded time afterwards; non-trivial = every case; distinct = case index per monitor",
 		Assumptions: []string{
 			"updates and reloads are issued sequentially by one writer (the property quantifies over sequences of updates and reloads interleaved with readers, not over update-reload races)",
